@@ -562,11 +562,9 @@ pub fn run_batch_without_responses(
     let _ = load_balanced_inputs
         .par_iter()
         .map(|queries| {
-            // fold over query iterator allows us to propagate failures up while still using constant
-            // memory to hold the state of the result object. we can't similarly return error values from
-            // within a for loop or for_each call, and map creates more allocations. open to other ideas!
-            let initial: Result<(), CompassAppError> = Ok(());
-            let _ = queries.iter().fold(initial, |_, q| {
+            // try_for_each propagates the first failure (for example a failed write to the
+            // response file) while still using constant memory: no response is kept
+            queries.iter().try_for_each(|q| {
                 let mut response =
                     run_single_query(q, search_orientation, output_plugins, search_app)?;
                 if let Ok(mut pb_local) = pb.lock() {
@@ -574,8 +572,7 @@ pub fn run_batch_without_responses(
                 }
                 response_writer.write_response(&mut response)?;
                 Ok(())
-            });
-            Ok(())
+            })
         })
         .collect::<Result<Vec<_>, CompassAppError>>()?;
 
